@@ -37,15 +37,17 @@ static void oracle(const pev *e, int expect) {
     }
 }
 
+static int BG0 = -1;            /* --b 1: the responder serves three interfaces; events BG0, BG0+1 = a neighbour's Hello heard on interface 1 / 2 */
 static void apply(int ev) {
     const pev *e = &EV[ev];
+    if (BG0 >= 0 && ev >= BG0) { drv_linux(e, ev - BG0 + 1); for (uint32_t i = 0; i < W.ntrace; i++) if (W.trace[i].kind == VF_T_SEND) vf_violation("background-interface-answered", "a neighbour's Hello heard on interface %d made the responder transmit", ev - BG0 + 1); return; }
     arb before = M.arb;
     int expect = arbiter_step(e);
     drv_linux(e, 0);
     if (!is_disc_tos(e->tos)) M.arb = before;
     oracle(e, expect);
 }
-static void ev_name(int ev, char *buf, size_t cap) { pev_name(&EV[ev], buf, cap); }
+static void ev_name(int ev, char *buf, size_t cap) { if (BG0 >= 0 && ev >= BG0) { snprintf(buf, cap, "on interface %d: ", ev - BG0 + 1); size_t l = strlen(buf); buf += l; cap -= l; } pev_name(&EV[ev], buf, cap); }
 static void root_setup(void) { M.arb.v = ARB_NONE; }
 
 static void build_alphabet(void) {
@@ -119,6 +121,10 @@ int main(int argc, char **argv) {
     vf_parse_args(argc, argv, "C05");
     vf_world_init(A.mtu, A.wifi, (uint8_t)A.fill);
     build_alphabet();
+    if (A.b == 1) {      /* the reduced alphabet (topology + quick service, two stations) keeps the product with the record-list orders closable */
+        int n = 0; for (int i = 0; i < NEV; i++) if (EV[i].tos <= 1 && EV[i].realsrc != ST_M3 && EV[i].realsrc != ST_BR) EV[n++] = EV[i];
+        NEV = n; BG0 = NEV; EV[NEV++] = ev_hello(0, ST_PEER, 0x3412); EV[NEV++] = ev_hello(0, ST_PEER, 0x3412);
+    }
     e1_cfg cfg = { .nev = NEV, .ev_name = ev_name, .apply = apply, .root_setup = root_setup,
                    .model = &M, .model_size = sizeof M, .deadline_s = A.deadline };
     int sweep = strcmp(A.mode, "sweep") == 0;
